@@ -10,3 +10,14 @@ claim('C01', 'other',
       'enumerated scope of models and words, labelled bounded.',
       'Trusted: pyvc encoding, z3/cvc5, spec functions as a reading of XSD Structures 3.8/3.9; the bounded part proves nothing beyond its scope.',
       'DESIGN.md 5/C01')
+
+claim('C16', 'proof',
+      'Every operation of the wildcard algebra in validators/wildcards.py (is_namespace_allowed, is_matching, deny_qnames, is_restriction, '
+      'union and intersection for XSD 1.0 and 1.1, XsdAnyElement.is_overlap) is proved against the set reading denote(w) for all '
+      'well-formed constraints - arbitrary finite sets of namespaces and names, same and different target namespaces - by VCs generated '
+      'from the real function bodies; the sentences of the property (admits <=> in the set; extension = union; attribute groups = '
+      'intersection; restriction only if included; overlap <=> sets intersect) are exactly the discharged postconditions. A bounded '
+      'cross-check runs the same clauses on the real objects and through real schemas.',
+      'Trusted: pyvc encoding (sets as arrays String->Bool, A-FRESH), z3/cvc5, get_namespace as an uninterpreted function, XsdWildcard.__copy__ '
+      'duplicating the three sets, well-formedness of parsed constraints (checked for _parse by the bounded part), XSI namespace outside the universe.',
+      'DESIGN.md 5/C16')
